@@ -77,16 +77,18 @@ PROPS = {
         "level_note": "Trusted: Lean kernel; the hand-written model of serde_json + serde derive; harness and diff. decode_encode is proved at the JSON-value level; the text-level round trip is established by the correspondence only.",
     },
     "C03": {
-        "lean_modules": ["Omaha.Props.C03"],
-        "streams": [{"name": "uri", "file": "uri", "args": ["uri"], "outside_ok": True}],
+        "lean_modules": ["Omaha.Props.C03", "Omaha.Props.Draws"],
+        "streams": [{"name": "uri", "file": "uri", "args": ["uri"], "outside_ok": True}],   # + the sm projection added below
         "rule": "service URLs from a component grammar (14 schemes incl. mixed case / non-http / malformed, 25 authorities incl. IPv6 literals, userinfo, ports, percent signs, bracket and colon errors, 16 paths, 16 queries incl. a pre-existing cup2key, 5 fragments, several separators, origin form), "
                 "every string over {h : / ? # @ [ ] % a . *} up to length 3 (quick) / 5 (thorough) alone and after 'http://h'; the real decorate_request runs on an Intermediate, its nonce is read back from the returned metadata; "
-                "compared: decorated URL text, key id, metadata body = serialised body; nonce distinctness over the whole run is checked directly; non-trivial = every case; distinct = (component indices) / string",
+                "compared: decorated URL text, key id, metadata body = serialised body; whole requests (update check + ping, event report, ping; 1..3 apps, config and app strings with non-ASCII, control and quote characters) built by RequestBuilder::build with the handler: "
+                "wire URL of the hyper request = model's decoration of the configured URL with the metadata's key id and nonce, metadata body = wire body bytes; nonce distinctness over the whole run is checked directly; non-trivial = every case; distinct = (component indices) / string / (kind, apps, non-ASCII, URL); "
+                "plus the state-machine stream (see C02) projected on: the nonce index of every request of every history (none / first-occurrence index) and the metadata token of every installer call (metadata handed over = body and cup2key seen on the wire for that update check, response bytes and signature = what the server sent)",
         "trusted_extra": ["modelled, not verified: http::Uri parsing/printing (Scheme2::parse, Authority::parse, PathAndQuery::from_shared, from_parts, Display), format! of u64 and hex::encode",
                           "uniqueness of nonces is a property of the RNG: observed (pairwise distinct over each run), not proved"],
         "assumptions": ["an empty URI path and '/' are the same path; the scheme is compared case-insensitively (http/https are printed lower-case)"],
-        "level_text": "Machine-checked Lean 4 theorems over all URL byte strings, key ids and nonces: decorate_text (what the decorated URL is made of), appendQuery_parts, one_parameter_added, cup2key_shape (64 hex digits for a 32-byte nonce), param_chars, parse_wf, reparse and decorate_preserves (for http/https/origin-form URLs the decorated text parses back to the same scheme, authority, path and the old query followed by exactly the cup2key parameter); the URL model is run against the real StandardCupv2Handler::decorate_request on every invocation.",
-        "level_note": "Trusted: Lean kernel; the hand-written model of http::Uri; harness and diff. reparse is proved for http, https and origin-form URLs (other schemes: correspondence only). The history-level clauses (every request of a check is decorated, metadata = wire bytes, one nonce per request) are carried by the state-machine stream once C02/C06 are claimed.",
+        "level_text": "Machine-checked Lean 4 theorems. Histories (Props/Draws, over any number of iterations of run from any start state): every_request_decorated_fresh_nonce (every request of every history - attempt, retry, event report, ping - carries a nonce exactly when a CUP handler is configured, and no nonce draw is used twice), nonce_count_eq_request_count. Over all URL byte strings, key ids and nonces: decorate_text (what the decorated URL is made of), appendQuery_parts, one_parameter_added, cup2key_shape (64 hex digits for a 32-byte nonce), param_chars, parse_wf, reparse and decorate_preserves (for http/https/origin-form URLs the decorated text parses back to the same scheme, authority, path and the old query followed by exactly the cup2key parameter); the URL model is run against the real StandardCupv2Handler::decorate_request on every invocation.",
+        "level_note": "Trusted: Lean kernel; the hand-written model of http::Uri; harness and diff. reparse is proved for http, https and origin-form URLs (other schemes: correspondence only). In the state-machine model a nonce is a draw from a counter; that distinct draws of the real handler are distinct values is the RNG's property (observed). 'metadata = wire bytes' has no counterpart inside the model (the model has one request value): it is decided by the correspondence (uri stream on built requests; installer-call token of the sm stream).",
     },
 }
 
@@ -111,6 +113,10 @@ def sm_stream(project):
     return [{"name": "sm", "file": "sm", "args": ["sm"], "outside_ok": True, "project": project}]
 
 
+PROPS["C03"]["streams"] = PROPS["C03"]["streams"] + sm_stream([[r"H ", ["nonce="]], [r"I plan", ["meta="]]])
+PROPS["C03"]["trusted_extra"] = PROPS["C03"]["trusted_extra"] + SM_TRUSTED
+
+
 PROPS["C07"] = {
     "lean_modules": ["Omaha.Props.C07"],
     "streams": sm_stream([r"E proto", [r"P (next|allowed)", ["poll="]], r"S (set|remove) " + K_POLL, r"S commit", [r"Z ", ["poll="]]]),
@@ -122,12 +128,12 @@ PROPS["C07"] = {
 }
 
 PROPS["C06"] = {
-    "lean_modules": ["Omaha.Props.C06"],
+    "lean_modules": ["Omaha.Props.C06", "Omaha.Props.Draws"],
     "streams": sm_stream([r"H uc", [r"H (ev|ping)", ["resp:", "fail:"]], r"T arm for:", r"M responsetime", r"M reqspercheck", r"E result"]),
     "rule": SM_RULE + "; projection: update-check requests in full (session / request id indices, payload, outcome), the existence and outcome of every event report and ping, every wait_for timer, the response-time and requests-per-check metrics, the check result; back-off jitter is observed from the armed durations and handed to the model, which accepts it only inside [0, 1000) ms",
     "trusted_extra": SM_TRUSTED + ["randomness of the back-off draw is a property of rand: observed, not proved"],
     "assumptions": [],
-    "level_text": "Machine-checked Lean 4 theorems: attemptLoop_le / attempts_le_three (at most three update-check requests per check, by induction on the loop), ucCount_omahaRequest_other and report_single_shot (event reports and pings are one exchange at most and never add update-check requests), retry_iff (a further attempt iff transient failure, attempt < 3, no poll interval in force), never_retried, outcome_classification, giveUp_third, backoff_window and backoff_bases (2^(k-1) s +/- 500 ms), attempts_range / requests_per_check_range (the reported count is the number of attempts, 1..3); tied to state_machine.rs by the per-unit differential run.",
+    "level_text": "Machine-checked Lean 4 theorems: attemptLoop_le / attempts_le_three (at most three update-check requests per check, by induction on the loop), ucCount_omahaRequest_other and report_single_shot (event reports and pings are one exchange at most and never add update-check requests), retry_iff (a further attempt iff transient failure, attempt < 3, no poll interval in force), never_retried, outcome_classification, giveUp_third, backoff_window and backoff_bases (2^(k-1) s +/- 500 ms), attempts_range / requests_per_check_range (the reported count is the number of attempts, 1..3); check_same_session_fresh_request_ids (Props/Draws: every attempt and report of a check carries the check's session id and a request id drawn after every earlier one and after the session id) with attempts_carry_flags / check_requests_carry_params of C05 for the payload; tied to state_machine.rs by the per-unit differential run.",
     "level_note": "Trusted: Lean kernel; the hand-written state-machine model; harness and diff. That each attempt has exactly one UpdateCheckResponseTime metric is checked by the correspondence (the model emits it under the same monotonic-clock condition as the code), not stated as a theorem.",
 }
 
@@ -175,7 +181,7 @@ PROPS["C05"] = {
 }
 
 PROPS["C10"] = {
-    "lean_modules": ["Omaha.Props.C10"],
+    "lean_modules": ["Omaha.Props.C10", "Omaha.Props.Draws"],
     "streams": sm_stream([[r"H uc", ["sid=", "rid="]],
                           [r"H ev", ["sid=", "rid=", "->"], r"(?<=[\[;])[^|;\]]*(?=\|)|ev=[^;\]]*|(?:resp|fail):\S*"],
                           r"M eventlost", r"E result", r"E state"]),
@@ -183,8 +189,8 @@ PROPS["C10"] = {
     "trusted_extra": SM_TRUSTED,
     "assumptions": ["'counted once per event' is per logical event: one for a template report, one per carried event for the per-app result report (what the code does)",
                     "event_fields is stated for app sets with distinct ids (the embedder's app set is keyed by id); duplicate ids are exercised by the correspondence only"],
-    "level_text": "Machine-checked Lean 4 theorems: performUpdateCheck_sents / responsePhase_sents / installPhase_sents (reports_by_path: for every world and environment the event reports on the wire are exactly pathBuilders of the path taken — parse-error for all apps; plan-error / deferred / denied for the known offered apps; download-started, the per-app result report, update-complete for the installed apps iff any — in order, each at most once, minus those that cannot be built), reportEvent_sents / reportResults_sents / sents_omahaRequest (one call = at most one request with exactly the builder's payload: never retried), reportEvent_lost / reportResults_lost / losts_fold (an undelivered report is counted lost once per logical event, a delivered one never), eventBuilder_payload + nextVersions_has + parseError_all_apps + installedApps_spec + event_codes (event_fields: which apps, current version as previous version, manifest version as next version, protocol codes); same session on every request and parameters via C05's Canon chain; outcome-independence by C04's performUpdateCheck_result/marks (result and announcements are functions of the path, which does not read report outcomes). Tied to state_machine.rs by the per-unit differential run.",
-    "level_note": "Trusted: Lean kernel; the hand-written state-machine model; harness and diff. Freshness of request ids is checked on every unit by the correspondence (first-occurrence indices of the GUIDs read off the wire), not stated as a theorem.",
+    "level_text": "Machine-checked Lean 4 theorems: check_same_session_fresh_request_ids and request_ids_never_reused (Props/Draws: all reports of a check carry the check's session id; every request id is a later draw than all earlier ones and than the session id, over whole histories); performUpdateCheck_sents / responsePhase_sents / installPhase_sents (reports_by_path: for every world and environment the event reports on the wire are exactly pathBuilders of the path taken — parse-error for all apps; plan-error / deferred / denied for the known offered apps; download-started, the per-app result report, update-complete for the installed apps iff any — in order, each at most once, minus those that cannot be built), reportEvent_sents / reportResults_sents / sents_omahaRequest (one call = at most one request with exactly the builder's payload: never retried), reportEvent_lost / reportResults_lost / losts_fold (an undelivered report is counted lost once per logical event, a delivered one never), eventBuilder_payload + nextVersions_has + parseError_all_apps + installedApps_spec + event_codes (event_fields: which apps, current version as previous version, manifest version as next version, protocol codes); same session on every request and parameters via C05's Canon chain; outcome-independence by C04's performUpdateCheck_result/marks (result and announcements are functions of the path, which does not read report outcomes). Tied to state_machine.rs by the per-unit differential run.",
+    "level_note": "Trusted: Lean kernel; the hand-written state-machine model; harness and diff. Freshness of request ids is the theorem check_same_session_fresh_request_ids / request_ids_never_reused of Props/Draws (ids are draws from a counter; that distinct GUID draws are distinct values is the RNG's property, observed on every unit through first-occurrence indices of the GUIDs read off the wire).",
 }
 
 PROPS["C09"] = {
